@@ -90,6 +90,9 @@ type Prop struct {
 	Run func(c *Ctx)
 	// Exec re-executes a list of op lines on the implementation (replay); returns outcomes and runs monitors.
 	Exec func(c *Ctx, ops []string) []string
+	// Exec2 is Exec for harnesses whose protocol lines carry observations: it also returns the lines
+	// as re-observed on this run.
+	Exec2 func(c *Ctx, ops []string) ([]string, []string)
 	// Corpus lines (op lists) that always run first.
 	Corpus [][]string
 }
@@ -172,11 +175,16 @@ func main() {
 	if *replay != "" {
 		c.Replay = true
 		ops := readOps(*replay)
-		if p.Exec == nil {
+		if p.Exec == nil && p.Exec2 == nil {
 			fmt.Fprintln(os.Stderr, "property has no op-level replay")
 			os.Exit(2)
 		}
-		outs := p.Exec(c, ops)
+		var outs []string
+		if p.Exec2 != nil {
+			ops, outs = p.Exec2(c, ops)
+		} else {
+			outs = p.Exec(c, ops)
+		}
 		cs := Case{Nontrivial: true}
 		for i, op := range ops {
 			cs.Lines = append(cs.Lines, Line{op, outs[i]})
@@ -184,7 +192,14 @@ func main() {
 		c.Add(cs)
 	} else {
 		for _, ops := range p.Corpus {
-			if p.Exec != nil {
+			if p.Exec2 != nil {
+				ops2, outs := p.Exec2(c, ops)
+				cs := Case{Nontrivial: true, Note: "corpus"}
+				for i, op := range ops2 {
+					cs.Lines = append(cs.Lines, Line{op, outs[i]})
+				}
+				c.Add(cs)
+			} else if p.Exec != nil {
 				outs := p.Exec(c, ops)
 				cs := Case{Nontrivial: true, Note: "corpus"}
 				for i, op := range ops {
